@@ -4,6 +4,7 @@ import ScyllaVerif.Proofs.StreamMap
 import ScyllaVerif.Proofs.Conn
 import ScyllaVerif.Model.ConnSched
 import ScyllaVerif.Proofs.ConnSched
+import ScyllaVerif.Model.C02StreamIdWords
 /-!
 # C02 — every response reaches exactly the request it answers on a shared connection
 
@@ -45,6 +46,161 @@ example :
         let (_, s) ← s.allocate
         let (id, _) ← (s.free 1).allocate
         pure id) = some 1 := by decide +kernel
+
+/-! ## 1b. the machine-word layer of the bitmap (`Model/C02StreamIdWords.lean`) and the bare bitmap as a system
+
+Seeded change C02-9 computed the block index of `free` in a `u8`: the answer on stream `s ≥ 16384` released the bit of
+`s - 16384` and left `s` reserved. The casts of `free` / `allocate` are in the model and these theorems say that, as
+written, they lose nothing over the whole `i16` range. -/
+section words
+open ScyllaVerif.C02StreamIdWords
+
+/-- `free` on a valid stream id (`0 ≤ id < 32768`) never panics and is the `Nat`-level `free`: `as usize`, `/ 64`,
+`% 64` select block `id / 64 < 512` and bit `id % 64`, for EVERY id of the space, not only those below 16384. -/
+theorem free_word_level (s : StreamIdSet) (id : Int) (hlen : s.blocks.length = 512) (h0 : 0 ≤ id) (h1 : id < 32768) :
+    freeI16 s id = some (s.free id.toNat) := by
+  have hn : ¬ id < 0 := by omega
+  have hb : id.toNat / 64 < s.blocks.length := by omega
+  simp only [freeI16, asUsize, hn, if_false, hb, if_true, StreamIdSet.free]
+
+/-- ... and so the answer on stream `id` releases `id` and nothing else, whatever `id` is. -/
+theorem answered_id_and_no_other_is_released (s s' : StreamIdSet) (id : Int) (hlen : s.blocks.length = 512)
+    (h0 : 0 ≤ id) (h1 : id < 32768) (h : freeI16 s id = some s') :
+    ∀ j, s'.isUsed j = (s.isUsed j && !(j == id.toNat)) := by
+  rw [free_word_level s id hlen h0 h1] at h
+  cases h
+  exact fun j => free_isUsed s id.toNat j
+
+/-- The error branch: a negative `i16` sign-extends to a block index far outside the 512 blocks; the slice index
+panics (nothing is written). The reader never passes one (`reader` 1636-1652 skips negative streams; model
+`ConnIO.reader`). -/
+theorem free_negative_id_panics (s : StreamIdSet) (id : Int) (hlen : s.blocks.length = 512) (h0 : id < 0)
+    (h1 : -32768 ≤ id) : freeI16 s id = none := by
+  have hb : ¬ (2 ^ 64 - id.natAbs) / 64 < s.blocks.length := by
+    rw [hlen]; have : (2:Nat) ^ 64 = 18446744073709551616 := by decide
+    omega
+  simp only [freeI16, asUsize, h0, if_true, hb, if_false]
+
+/-- `off as i16 + block_id as i16 * 64` does not wrap: the `i16` handed out is the id the bitmap marked. -/
+theorem allocate_id_fits_i16 (s s' : StreamIdSet) (id : Nat) (hlen : s.blocks.length = 512)
+    (h : s.allocate = some (id, s')) : allocateI16 s = some ((id : Int), s') := by
+  have hid : id < 32768 := (sallocate_some hlen h).1
+  have : idOfBlockBit (id % 64) (id / 64) = (id : Int) := by
+    unfold idOfBlockBit wrapI16
+    have a : ((id / 64 : Nat) : Int) % 65536 = ((id / 64 : Nat) : Int) := by omega
+    have a' : ¬ ((id / 64 : Nat) : Int) ≥ 32768 := by omega
+    simp only [a, a', if_false]
+    have b : (((id / 64 : Nat) : Int) * 64) % 65536 = ((id / 64 : Nat) : Int) * 64 := by omega
+    have b' : ¬ ((id / 64 : Nat) : Int) * 64 ≥ 32768 := by omega
+    simp only [b, b', if_false]
+    have c : ((id % 64 : Nat) : Int) % 65536 = ((id % 64 : Nat) : Int) := by omega
+    have c' : ¬ ((id % 64 : Nat) : Int) ≥ 32768 := by omega
+    simp only [c, c', if_false]
+    have d : (((id % 64 : Nat) : Int) + ((id / 64 : Nat) : Int) * 64) % 65536 = (id : Int) := by omega
+    have d' : ¬ (id : Int) ≥ 32768 := by omega
+    simp only [d, d', if_false]
+  simp only [allocateI16, h, this]
+
+/-- Freed id = answered id, seen through the allocator: if every id below `id` is reserved, the request submitted
+right after the answer on `id` gets exactly `id` (the oracle of the `ids` / `map` cases that keep > 16384 ids held). -/
+theorem answered_id_is_the_next_allocated (s : StreamIdSet) (id : Nat) (hlen : s.blocks.length = 512)
+    (hid : id < 32768) (hlow : ∀ j < id, s.isUsed j = true) : ∃ s', (s.free id).allocate = some (id, s') := by
+  have hlen' : (s.free id).blocks.length = 512 := by rw [free_length]; exact hlen
+  cases hal : (s.free id).allocate with
+  | none =>
+    have := (sallocate_none hlen').mp hal id hid
+    rw [free_isUsed] at this; simp at this
+  | some p =>
+    obtain ⟨id', s'⟩ := p
+    obtain ⟨_, hfree, hbelow, _⟩ := sallocate_some hlen' hal
+    rw [free_isUsed] at hfree
+    refine ⟨s', ?_⟩
+    have : id' = id := by
+      rcases Nat.lt_trichotomy id' id with hlt | heq | hgt
+      · have h1 := hlow id' hlt
+        have h2 : (id' == id) = false := by simp; omega
+        simp [h1, h2] at hfree
+      · exact heq
+      · have := hbelow id hgt
+        rw [free_isUsed] at this; simp at this
+    rw [this]
+
+/-- What the seeded variant does instead, for EVERY id of the upper half: the answered id stays reserved, the id
+16384 below it is released (`freeNarrow` is not the code; this is why the differential run must keep more than 16384
+ids held). -/
+theorem narrow_block_index_frees_another_id (s : StreamIdSet) (id : Nat) (h0 : 16384 ≤ id) (h1 : id < 32768) :
+    (freeNarrow s id).isUsed id = s.isUsed id ∧ (freeNarrow s id).isUsed (id - 16384) = false := by
+  have e : freeNarrow s id = s.free (id - 16384) := by
+    have a : (id / 64) % 256 = (id - 16384) / 64 := by omega
+    have b : id % 64 = (id - 16384) % 64 := by omega
+    simp only [freeNarrow, StreamIdSet.free, a, b]
+  rw [e, free_isUsed, free_isUsed]
+  have : (id == id - 16384) = false := by simp; omega
+  simp [this]
+
+/-- One operation of the bare bitmap, over ALL `i16` arguments: what `allocate` returns is a non-negative `i16` that
+was free and is the least such; `free` of a valid id clears that bit only; `free` of a negative id changes nothing;
+the 512 blocks stay 512. -/
+theorem id_step_spec (s : StreamIdSet) (hlen : s.blocks.length = 512) (op : IdOp) :
+    (idStep s op).1.blocks.length = 512 ∧
+    match op with
+    | .alloc =>
+      (match (idStep s .alloc).2 with
+        | some id => 0 ≤ id ∧ id < 32768 ∧ s.isUsed id.toNat = false ∧ (∀ j < id.toNat, s.isUsed j = true) ∧
+            ∀ j, (idStep s .alloc).1.isUsed j = (s.isUsed j || j == id.toNat)
+        | none => (idStep s .alloc).1 = s ∧ ∀ j < 32768, s.isUsed j = true)
+    | .free id =>
+      (0 ≤ id → id < 32768 → ∀ j, (idStep s (.free id)).1.isUsed j = (s.isUsed j && !(j == id.toNat))) ∧
+      (id < 0 → -32768 ≤ id → (idStep s (.free id)).1 = s) := by
+  cases op with
+  | alloc =>
+    cases hal : s.allocate with
+    | none =>
+      have : allocateI16 s = none := by simp [allocateI16, hal]
+      simp only [idStep, this]
+      exact ⟨hlen, trivial, (sallocate_none hlen).mp hal⟩
+    | some p =>
+      obtain ⟨id, s'⟩ := p
+      have hw := allocate_id_fits_i16 s s' id hlen hal
+      obtain ⟨hid, hfree, hbelow, hset, hother, hlen'⟩ := sallocate_some hlen hal
+      simp only [idStep, hw]
+      refine ⟨hlen', by omega, by omega, by simpa using hfree, by simpa using hbelow, ?_⟩
+      intro j
+      by_cases hj : j = id
+      · subst hj; simp [hset]
+      · have : (j == id) = false := by simp [hj]
+        simp [hother j hj, this]
+  | free id =>
+    refine ⟨?_, ?_, ?_⟩
+    · simp only [idStep]
+      cases hf : freeI16 s id with
+      | none => exact hlen
+      | some s' =>
+        simp only [freeI16] at hf
+        split at hf
+        · cases hf; simp [hlen]
+        · cases hf
+    · intro h0 h1 j
+      simp only [idStep, free_word_level s id hlen h0 h1]
+      exact free_isUsed s id.toNat j
+    · intro h0 h1
+      simp only [idStep, free_negative_id_panics s id hlen h0 h1]
+
+/-- Lifted to every operation sequence from the fresh bitmap. -/
+theorem id_run_keeps_512_blocks (ops : List IdOp) : (idRun StreamIdSet.new ops).blocks.length = 512 := by
+  suffices h : ∀ (s : StreamIdSet), s.blocks.length = 512 → (idRun s ops).blocks.length = 512 from h _ new_length
+  induction ops with
+  | nil => intro s h; exact h
+  | cons op rest ih => intro s h; exact ih _ (id_step_spec s h op).1
+
+/-- non-vacuity: the whole space reserved, the answer on stream 20000 (block 312 > 255) arrives, the next request gets
+20000; the narrowed variant would have handed out 3616. -/
+example :
+    let full : StreamIdSet := ⟨List.replicate 512 (BitVec.allOnes 64)⟩
+    ((freeI16 full 20000).bind fun s => (allocateI16 s).map (·.1)) = some 20000 ∧
+      ((freeNarrow full 20000).allocate.map (·.1)) = some 3616 := by decide +kernel
+
+end words
 
 /-! ## 2. the inductive invariant -/
 
